@@ -519,7 +519,8 @@ PROPERTIES = {
                        "full hour/minute); where the text leaves the schedule open (time of day missing or doubled by a clock change, "
                        "fractional-hour offset change) any schedule on the configured grid is accepted (tier B). Held on everything "
                        "generated."),
-        "level_note": ("F8 (schedule drift) was found here and is fixed in /repo (58dadac): tier A is asserted; "
+        "level_note": ("F8 (schedule drift) was found here and is fixed in /repo (58dadac): tier A is asserted; only RotatingFileSink is driven -- "
+                       "RotatingSink<JsonFileSink>, whose bytes on disk are not the text statement, is instantiated by no job (seeded change C15-5 is missed for that reason); "
                        "local-time fall-back hours with date-bearing names are stepped over; 12 curated zones, 2001-2030."),
         "rule": ("case = (daily HH:MM | hourly | minutely with interval, GMT/local zone, start instant near/at/after a boundary, "
                  "optional size limit and backup limit, naming scheme) + Write(dt) history; non-trivial = >= 1 time rotation AND (a "
